@@ -14,6 +14,7 @@ Pick == \/ Clear \/ AddH \/ AddH \/ FFTRound \/ FFTAddH \/ FFTOnlyH
         \/ Trivial(MuP(R(1..Len(MuPool)))) \/ Load(R(1..Len(MuPool)), R(Tags)) \/ Load(R(1..Len(MuPool)), R(Tags))
         \/ MulXaiM1(R(Exps)) \/ MulXaiM1(R(Exps)) \/ MulXaiM1(R(Exps))
         \/ Decrypt(R(Msizes)) \/ Decrypt(R(Msizes))
+        \/ EncPoly(MuP(R(1..Len(MuPool))), R({20, 25, 30})) \/ EncInt(R({-1, 1, 2, 3}), R({20, 25, 30}))
 GNext == Pick /\ hist' = Append(hist, Rec)
 GSpec == GInit /\ [][GNext]_<<avars, hist>>
 Dump == nops = MaxOps => ndJsonSerialize(IOEnv.GEN_OUT \o ToString(TLCGet("stats").traces) \o ".ndjson", hist)
